@@ -144,6 +144,9 @@ Proof.
     rewrite (H x) by now left. lia.
 Qed.
 
+Lemma Nlen_to_nat {A} (l : list A) n : Nlen l = n -> N.to_nat n = length l.
+Proof. unfold Nlen. lia. Qed.
+
 Lemma forallb_In {A} (f : A -> bool) l x : forallb f l = true -> In x l -> f x = true.
 Proof. intros H. apply (proj1 (forallb_forall f l) H). Qed.
 
@@ -434,9 +437,9 @@ Proof.
   intro W. unfold wf_tx in W. split_and.
   repeat constructor; rewrite ?be_enc_Nlen; try reflexivity.
   - now apply arr_ok_len.
-  - apply Nlen_concat_map_const. intros x Hx. apply slip_size. eapply forallb_In; eauto.
-  - apply Nlen_concat_map_const. intros x Hx. apply slip_size. eapply forallb_In; eauto.
-  - apply Nlen_concat_map_const. intros x Hx. apply hop_size. eapply forallb_In; eauto.
+  - apply Nlen_concat_map_const. intros x Hx. apply slip_size. now apply (forallb_In wf_slip (t_from t)).
+  - apply Nlen_concat_map_const. intros x Hx. apply slip_size. now apply (forallb_In wf_slip (t_to t)).
+  - apply Nlen_concat_map_const. intros x Hx. apply hop_size. now apply (forallb_In wf_hop (t_path t)).
 Qed.
 
 Lemma tx_size t : wf_tx t = true -> Nlen (encode_tx t) = size_tx t.
@@ -446,11 +449,19 @@ Proof.
   unfold size_tx, TRANSACTION_SIZE. cbn [sumN]. lia.
 Qed.
 
+Ltac items_side HLn :=
+  first [ assumption | reflexivity
+        | apply slip_decode_encode | apply slip_size | apply hop_decode_encode | apply hop_size
+        | (cbn [length]; lia)
+        | (rewrite <- HLn; unfold size_tx, Nlen, TRANSACTION_SIZE, SLIP_SIZE, HOP_SIZE in *; lia)
+        | (cbn [firstn sumN]; unfold TRANSACTION_SIZE, SLIP_SIZE, HOP_SIZE; lia) ].
+
 Lemma tx_decode_encode t : wf_tx t = true -> decode_tx (encode_tx t) = Ok t.
 Proof.
   intro W. pose proof (tx_has_widths t W) as HW. pose proof (tx_size t W) as HL.
   rewrite (encode_tx_wf t W) in *.
   unfold wf_tx, two64, two32 in W. split_and.
+  assert (HLn : (N.to_nat (size_tx t) = length (concat (tx_fields t)))%nat) by (now apply Nlen_to_nat).
   unfold decode_tx. rewrite HL.
   replace (size_tx t <? TRANSACTION_SIZE) with false by (unfold size_tx, TRANSACTION_SIZE, SLIP_SIZE, HOP_SIZE; lia).
   field 0%nat. rewrite (be_dec_enc 4 (Nlen (t_from t))) by (rewrite pow256_4; lia).
@@ -462,28 +473,18 @@ Proof.
   replace (negb (t_type t <? 9)) with false by lia.
   rewrite (be_dec_enc 4 (Nlen (t_data t))) by (rewrite pow256_4; lia).
   rewrite (be_dec_enc 4 (Nlen (t_path t))) by (rewrite pow256_4; lia).
-  assert (HLn : (N.to_nat (size_tx t) = length (concat (tx_fields t)))%nat) by (unfold Nlen in HL; lia).
-  rewrite (dec_items_fields 309 SLIP_SIZE decode_slip encode_slip wf_slip _ _ 8%nat (t_from t));
-    try assumption; try reflexivity;
-    [ | apply slip_decode_encode | apply slip_size | cbn [length]; lia
-      | rewrite <- HLn; unfold size_tx, Nlen, TRANSACTION_SIZE, SLIP_SIZE, HOP_SIZE in *; lia
-      | cbn [firstn sumN]; unfold TRANSACTION_SIZE, SLIP_SIZE; lia ].
+  match goal with HW : has_widths ?fs ?ws |- _ =>
+    rewrite (dec_items_fields 309 SLIP_SIZE decode_slip encode_slip wf_slip fs ws 8%nat (t_from t)) by items_side HLn end.
   cbn [bind].
-  rewrite (dec_items_fields 310 SLIP_SIZE decode_slip encode_slip wf_slip _ _ 9%nat (t_to t));
-    try assumption; try reflexivity;
-    [ | apply slip_decode_encode | apply slip_size | cbn [length]; lia
-      | rewrite <- HLn; unfold size_tx, Nlen, TRANSACTION_SIZE, SLIP_SIZE, HOP_SIZE in *; lia
-      | cbn [firstn sumN]; unfold TRANSACTION_SIZE, SLIP_SIZE; lia ].
+  match goal with HW : has_widths ?fs ?ws |- _ =>
+    rewrite (dec_items_fields 310 SLIP_SIZE decode_slip encode_slip wf_slip fs ws 9%nat (t_to t)) by items_side HLn end.
   cbn [bind].
   match goal with |- context [sl 311 ?a ?b _] =>
     rewrite (sl_fields _ _ 10%nat 311 a b HW) by
       (first [cbn [length]; lia | cbn [firstn sumN]; unfold TRANSACTION_SIZE, SLIP_SIZE; lia]) end.
   cbn [nth bind].
-  rewrite (dec_items_fields 312 HOP_SIZE decode_hop encode_hop wf_hop _ _ 11%nat (t_path t));
-    try assumption; try reflexivity;
-    [ | apply hop_decode_encode | apply hop_size | cbn [length]; lia
-      | rewrite <- HLn; unfold size_tx, Nlen, TRANSACTION_SIZE, SLIP_SIZE, HOP_SIZE in *; lia
-      | cbn [firstn sumN]; unfold TRANSACTION_SIZE, SLIP_SIZE; lia ].
+  match goal with HW : has_widths ?fs ?ws |- _ =>
+    rewrite (dec_items_fields 312 HOP_SIZE decode_hop encode_hop wf_hop fs ws 11%nat (t_path t)) by items_side HLn end.
   cbn [bind].
   rewrite !be_dec_enc by (rewrite ?pow256_8, ?pow256_4; lia).
   destruct t; reflexivity.
